@@ -152,6 +152,10 @@ def _valid_wire(rng, kind):
             # a digest-"signed" Interest carries SignatureTime and SignatureNonce (fixed by the name, not by the clock)
             h = hashlib.sha256(b''.join(name)).digest()
             signer = {'type': 0, 'nonce': int.from_bytes(h[:8], 'big'), 'time': 1700000000000 + int.from_bytes(h[8:12], 'big')}
+        # at most one ParametersSha256DigestComponent, and only when there are parameters (an encoder refuses the rest;
+        # such a draw used to be skipped, it is now repaired and kept)
+        keep = 1 if (ap is not None or signer is not None) else 0
+        name = [c for i, c in enumerate(name) if c[:1] != b'\x02' or sum(1 for d in name[:i] if d[:1] == b'\x02') < keep]
         return K.build_interest(name, app=ap, sig=signer, **ip)
     if kind == 'data':
         mi = dict(content_type=rng.choice([None, 0, 2, 300]), freshness_period=rng.choice([None, 0, 1000, 2 ** 40]),
